@@ -46,6 +46,10 @@ CLAIMS = {
         text="Exhaustive within length: for EVERY buffer of N octets (all 256 values per octet, N up to the stated bound) and every start offset including at/after the end, try_from_compressed, skip_compressed, try_from_uncompressed(_all) and validate_uncompressed(_all) agree with an independent RFC 1035 decoder on acceptance, name octets, label table (exercising the unsafe DST layout, with CBMC's memory-safety checks on) and first-chunk length.",
         note="quick: compressed N=3, uncompressed N in {2,5}, validate/skip every length 0..=8, plus the 63-octet-label / 255-octet-name boundaries via a 270-octet buffer whose fourth length octet is symbolic; thorough adds compressed N=4,5, uncompressed N=8, validate/skip 0..=14. Compressed parsing of names longer than 5 octets is covered only through skip_compressed and the uncompressed parser (parse_compressed_name on the long buffer ran out of memory at 29 GB). Stub S7 (ArrayVec::try_extend_from_slice).",
         ref="DESIGN.md A4, B-C14"),
+    "C17": dict(
+        text="Exhaustive by solver query: for ALL 65536 values of each 16-bit code (one symbolic u16 per query) Display->FromStr round-trips for Type, Class, Qtype, Qclass; the RFC 3597 TYPEn/CLASSn decimal form assembled in the harness parses to n for every n; every mnemonic of the reference tables parses to its code under every per-letter case mask; Opcode/Rcode TryFrom<u8> accept exactly values < 16 (all 256 values) and Rcode TryFrom<ExtendedRcode> exactly values < 16 with the value preserved.",
+        note="Mnemonic tables are written from the RFCs in the harness (RFC 1035, 1995, 2136, 2782, 3596, 6891, 8945). Texts other than canonical Display output, mnemonics in any case and TYPEn/CLASSn without leading zeros are outside the claim (e.g. leading zeros, '+' signs).",
+        ref="DESIGN.md A4.2, B-C17"),
 }
 
 GENERIC = dict(
